@@ -501,21 +501,25 @@ Definition awc_statement (c : command) (wr : text -> bool) (out : dout) : Prop :
   ((d_acts out <> [] \/ d_failed_write out <> None) ->
      exists a r, d_asm out = Some (a, r) /\ clean_success a r /\ d_clean_at_actions out = true).
 
+Ltac no_actions := intros [K|K]; exfalso; apply K; reflexivity.
+Ltac red_out := cbn [run_dsteps finish d_result d_acts d_failed_write d_report d_asm d_clean_at_actions
+                     ds_report ds_asm ds_acts ds_clean ds_output_seen app negb].
+
 Theorem awc_spec : forall c wr, awc_statement c wr (assemble_with_command modelled_driver_shape c wr asm []).
 Proof.
   intros c wr. unfold awc_statement, assemble_with_command, modelled_driver_shape, dstate0.
   cbn [run_dsteps ds_report ds_asm ds_acts ds_clean ds_output_seen].
   destruct (c_help c) eqn:Hh.
-  { cbn. repeat split; auto; try (intro; discriminate); try (intros [K|K]; [contradiction | discriminate]).
-    intros [K|K]; exfalso; auto. }
+  { cbn. split; [auto|]. split; [|split; [intro X; discriminate X | no_actions]].
+    intros _. split; [reflexivity|]. split; [reflexivity|]. left. auto. }
   destruct (c_version c) eqn:Hv.
-  { cbn. repeat split; auto; try (intro; discriminate).
-    intros [K|K]; exfalso; auto. }
+  { cbn. split; [auto|]. split; [|split; [intro X; discriminate X | no_actions]].
+    intros _. split; [reflexivity|]. split; [reflexivity|]. left. auto. }
   destruct (c_inputs c) as [|i0 ir] eqn:Hi.
-  { cbn. repeat split; auto; try (intro; discriminate).
-    intros [K|K]; exfalso; auto. }
+  { cbn. split; [auto|]. split; [intro X; discriminate X|]. split; [|no_actions].
+    intros _. split; [reflexivity|]. left. auto. }
   assert (A := Hasm []). destruct (asm []) as [a rep| | |] eqn:Ea; try contradiction.
-  2:{ cbn. repeat split; auto; try (intro; discriminate). intros [K|K]; exfalso; auto. }
+  2:{ cbn. split; [auto|]. split; [intro X; discriminate X|]. split; [intro X; discriminate X | no_actions]. }
   cbn [ds_report ds_asm ds_acts ds_clean ds_output_seen].
   destruct (r_output a) eqn:Ho.
   - (* assemble returned an output *)
@@ -525,17 +529,17 @@ Proof.
     assert (R : run_command c true wr = perform wr (c_groups c) []).
     { unfold run_command. rewrite Hh, Hv, Hi. reflexivity. }
     destruct (perform_cases wr (c_groups c) []) as [(acts & P & Fu)|(acts & name & P & Fu & W)]; rewrite P.
-    + cbn. rewrite Ec. repeat split; auto; try (intro; discriminate).
-      * intros _. repeat split; auto. right. split; [congruence|]. eauto.
+    + red_out. rewrite Ec. red_out. split; [auto|]. split; [|split; [intro X; discriminate X|]].
+      * intros _. split; [reflexivity|]. split; [reflexivity|]. right. split; [congruence|]. exists a, rep. auto.
       * intros _. exists a, rep. auto.
-    + cbn. rewrite Fu, Ec. repeat split; auto; try (intro; discriminate).
+    + red_out. rewrite Fu, Ec. red_out. split; [auto|]. split; [intro X; discriminate X|]. split.
       * intros _. split; [rewrite has_error_app; simpl; apply orb_true_r|].
-        right. exists name. repeat split; auto. congruence.
+        right. exists name. split; [reflexivity|]. split; [exact W|]. congruence.
       * intros _. exists a, rep. auto.
   - (* no output: Err(()) before anything is formatted, printed or written *)
     destruct A as [A|A]; [destruct A as (A & _); congruence|]. destruct A as (_ & _ & Ee).
-    cbn. repeat split; auto; try (intro; discriminate).
-    intros [K|K]; exfalso; auto.
+    red_out. split; [auto|]. split; [intro X; discriminate X|]. split; [|no_actions].
+    intros _. split; [exact Ee|]. left. auto.
 Qed.
 End DriverGlue.
 
